@@ -13,6 +13,13 @@ NOT_APPLICABLE = {}
 HOOK_COMMITS = []
 
 PROPS = {
+    'C16': {
+        'scenarios': ['stores'], 'corr': ['Corr/Stores'], 'case_prefixes': ['cases_stores'],
+        'level': 'proof',
+        'level_text': 'Coq theorems over the builders with explicit storage effects (every Store = open + commit, the k-th open or commit failing for ANY k): C16_file_build_store_safe (BuildUnixFSFile, every width, chunk list and failure plan: every prefix of the commit sequence is free of dangling links, an error never comes with a link, a link comes only after its whole DAG was committed and only if no write failed), C16_symlink_store_safe, C16_dangling_free_is_closed. Proved by an invariant threaded through fill/ftr/build_loop. Directory, sharded, recursive-import and quick builders: the same invariant is checked on the implementation log for every failure point (oracle) and their result shape against the store model. Tied to the code by running every builder with the k-th open/commit failing for every k and comparing result shape and (files) the exact commit sequence with the model.',
+        'level_note': 'theorems are about Build/Store.v (monadic re-statement of File/Builder.v and Hamt/Build.v with the LinkSystem.Store contract: link computed, commit may fail); go-ipld-prime LinkSystem.Store is modelled (returns the link together with the commit error); sibling shard order follows Go map order so sharded traces are compared by invariant only',
+        'partial_clauses': ['sharded/plain directory, recursive import, quick builder: invariant checked by oracle on every failure point, theorem proved for file and symlink builders'],
+    },
     'C14': {
         'scenarios': ['reify'], 'corr': ['Corr/Reify'], 'case_prefixes': ['cases_reify'],
         'level': 'proof',
